@@ -496,8 +496,10 @@ def mutate_live(obj, c):
         except Exception:
             continue
         if isinstance(L, list) and len(L) > 1:
-            L.reverse()
-            L.append("#")
+            before_sort = list(L)
+            L.sort()                      # e.g. a caller that wants the labels in alphabetical order for a plot
+            if L == before_sort:
+                L.reverse()
     flat = obj.ravel() if isinstance(obj, EncodedRaggedArray) else obj
     if not isinstance(flat, EncodedArray) or flat.size == 0:
         return False
